@@ -90,6 +90,9 @@ type meta struct {
 	Extra       map[string]interface{} `json:"extra,omitempty"`
 }
 
+// theG: the run's generator state; Exec/Teardown may add to theG.Extra (it ends up in meta.json).
+var theG *G
+
 // safeExec runs Exec under recover; a panic is reported as "panic:<site>" where site is the first
 // frame inside the repository (not the harness, not the runtime).
 func safeExec(p *Prop, toks []string) (out string) {
@@ -184,6 +187,7 @@ func main() {
 	_ = fs.Parse(os.Args[2:])
 
 	g := &G{R: NewRand(*seed), Tier: *tier, Seed: *seed, tags: map[string]int{}, Extra: map[string]interface{}{}}
+	theG = g
 	if p.Setup != nil {
 		p.Setup(g)
 	}
